@@ -25,6 +25,8 @@ Families nf / nfa put -inf and +inf (next to NaN) into the 2-D value alphabet: t
 value is "finite, not nodata", so such a cell belongs to no category and not to the zone's valid cells either.
 One rank = one call of xrspatial.zonal.crosstab, compared with the Counter model of xrmc/oracles/zonal.py.
 Rows and columns are matched by label; any row / column order is accepted."""
+import itertools
+
 import numpy as np
 
 from ..core.digest import bytes64
@@ -511,5 +513,78 @@ class CrosstabSpace(Space):
         return "unexplained"
 
 
+class DupCatSpace(Space):
+    """cat_ids lists in which an id occurs MORE THAN ONCE (the multiplicity dimension of a list argument), NumPy backend, 2-D values:
+    every returned column - however often its label is repeated - must hold the entries of that category's column of the
+    unrestricted table (so a percentage row still sums to 100 over its distinct categories).  Dask is left out on purpose:
+    dask.dataframe rejects repeated column labels with a ValueError, which is a refusal, not a wrong table."""
+    ZA, VA = (1.0, 2.0), (0.0, 1.0, 2.0)
+    POOL = (0.0, 1.0, 2.0, 7.0)
+
+    def __init__(self, n, maxlen):
+        self.n, self.maxlen = n, maxlen
+        self.name = "dupcat_N%d_len%d" % (n, maxlen)
+        self.lists = [list(c) for L in range(2, maxlen + 1) for c in itertools.product(self.POOL, repeat=L) if len(set(c)) < L]
+        self.dims = [len(self.ZA)] * n + [len(self.VA)] * n + [len(self.lists), 2]
+        self.size = int(np.prod(self.dims))
+        self.weight = n
+
+    def setup(self):
+        import xarray as xr
+        from xrspatial import zonal
+        self.crosstab, self.DataArray = zonal.crosstab, xr.DataArray
+
+    def case(self, rank):
+        d = unrank_product(rank, self.dims)
+        z = np.array([[self.ZA[i] for i in d[:self.n]]])
+        v = np.array([[self.VA[i] for i in d[self.n:2 * self.n]]])
+        return z, v, self.lists[d[-2]], ("count", "percentage")[d[-1]]
+
+    def describe(self, rank):
+        z, v, cat_ids, agg = self.case(rank)
+        return {"zones": z, "values": v, "cat_ids": cat_ids, "agg": agg, "backend": "numpy"}
+
+    def run(self, lo, hi, out):
+        for rank in range(lo, hi):
+            z, v, cat_ids, agg = self.case(rank)
+            zs, cs, counts, total = oz.contingency(z, v, None)
+            want = sorted(c for c in cat_ids if c in cs)
+            key = "%s|agg=%s|cat_ids=%r" % (self.name, agg, cat_ids)
+            try:
+                res = self.crosstab(self.DataArray(z.copy(), dims=("y", "x")), self.DataArray(v.copy(), dims=("y", "x")),
+                                    cat_ids=list(cat_ids), agg=agg)
+            except Exception as e:        # noqa: a refusal is not a wrong table; it is counted, not judged
+                out.case(outcome=("raises", type(e).__name__), nontrivial=False, calls=1)
+                out.count("raises_" + type(e).__name__)
+                continue
+            arr = res.to_numpy(dtype=float)
+            cols = list(res.columns)
+            out.case(outcome=bytes64(arr.tobytes() + repr([str(c) for c in cols]).encode()), nontrivial=len(want) >= 2, calls=1)
+            out.ok()
+            msg = None
+            try:
+                ocols = [float(c) for c in cols[1:]]
+            except (TypeError, ValueError):
+                ocols = None
+            if cols[:1] != ["zone"] or ocols is None or sorted(set(ocols)) != sorted(set(want)):
+                msg = "columns are %r, expected 'zone' + the requested categories present %r" % (cols, want)
+            elif sorted(arr[:, 0].tolist()) != zs:
+                msg = "rows are labelled %r, expected %r" % (arr[:, 0].tolist(), zs)
+            else:
+                for i, zz in enumerate(arr[:, 0].tolist()):
+                    for j, c in enumerate(ocols):
+                        n = counts.get((zz, c), 0)
+                        e = float(n) if agg == "count" else ((n / total[zz] * 100.0) if total[zz] else None)
+                        if e is not None and not oz.close(arr[i, j + 1].item(), e):
+                            msg = "entry (zone %r, category %r, column %d) is %r, expected %r" % (zz, c, j + 1, arr[i, j + 1].item(), e)
+                            break
+                    if msg:
+                        break
+            if msg:
+                out.violation(rank, key, msg, case=self.describe(rank), sig="crosstab|numpy|repeated-cat_ids|" + agg,
+                              observed=res, expected={"categories": want})
+
+
 def build(tier):
-    return [CrosstabSpace(e[0], e[1], n, e[3], *e[4:]) for e in PLAN[tier] for n in e[2]]
+    return [CrosstabSpace(e[0], e[1], n, e[3], *e[4:]) for e in PLAN[tier] for n in e[2]] + \
+        [DupCatSpace(n, m) for n, m in ({"quick": [(3, 2), (2, 3)], "thorough": [(3, 2), (4, 3)]}[tier])]
